@@ -7,6 +7,9 @@ package tbls_test
 //	(n, t, secret) x split mode x every share subset x message          -> positive relations
 //	(n, t, secret) x split mode x size-t subset x message x substitution -> negative relations
 //
+// plus three further dimensions with the same oracle: capacity histories (zz_verif_c08_hist_test.go), call histories
+// over related queries (zz_verif_c08_rel_test.go) and large share indices (zz_verif_c08_big_test.go).
+//
 // The oracle is the property statement: every set of >= t shares recovers the secret and the group
 // public key, the threshold aggregate of >= t partials is bit for bit Sign(secret, msg) and verifies
 // under the group key; an aggregate containing one partial of a wrong share, one partial under a wrong
@@ -18,6 +21,7 @@ package tbls_test
 import (
 	"bytes"
 	"encoding/hex"
+	"encoding/json"
 	"fmt"
 	"math/rand"
 	"sort"
@@ -172,11 +176,14 @@ func (e *c08env) split(mode string, secret tbls.PrivateKey, n, t int, seed int64
 
 func c08seed(n, t, si, salt int) int64 { return int64(((n*16+t)*16+si)*16 + salt) }
 
-func (e *c08env) partials(shares map[int]tbls.PrivateKey) ([]map[int]tbls.Signature, error) {
+func (e *c08env) partials(shares map[int]tbls.PrivateKey, need map[int]bool) ([]map[int]tbls.Signature, error) {
 	out := make([]map[int]tbls.Signature, len(e.msgs))
 	for mi, m := range e.msgs {
 		out[mi] = map[int]tbls.Signature{}
 		for id, sh := range shares {
+			if need != nil && !need[id] {
+				continue
+			}
 			e.steps++
 			s, err := tbls.Sign(sh, m)
 			if err != nil {
@@ -189,7 +196,10 @@ func (e *c08env) partials(shares map[int]tbls.PrivateKey) ([]map[int]tbls.Signat
 }
 
 // build returns (nil, reason) when the library refuses an input needed for the fixture: never an alarm.
-func (e *c08env) build(n, t, si int, mode string, withForeign bool) (*c08fx, string) {
+// need == nil: public shares and partial signatures of every share; otherwise only of the listed share ids (the
+// splits themselves are always complete) - the large-index dimension touches a few dozen ids of splits with up to
+// 65537 shares.
+func (e *c08env) build(n, t, si int, mode string, withForeign bool, need map[int]bool) (*c08fx, string) {
 	fx := &c08fx{n: n, t: t, si: si, mode: mode, secret: e.secrets[si]}
 	var err error
 	e.steps++
@@ -205,12 +215,15 @@ func (e *c08env) build(n, t, si int, mode string, withForeign bool) (*c08fx, str
 	sort.Ints(fx.ids)
 	fx.pubs = map[int]tbls.PublicKey{}
 	for id, sh := range fx.shares {
+		if need != nil && !need[id] {
+			continue
+		}
 		e.steps++
 		if fx.pubs[id], err = tbls.SecretToPublicKey(sh); err != nil {
 			return nil, fmt.Sprintf("public key of share %d: %v", id, err)
 		}
 	}
-	if fx.par, err = e.partials(fx.shares); err != nil {
+	if fx.par, err = e.partials(fx.shares, need); err != nil {
 		return nil, err.Error()
 	}
 	for _, m := range e.msgs {
@@ -229,10 +242,10 @@ func (e *c08env) build(n, t, si int, mode string, withForeign bool) (*c08fx, str
 		if fx.sameShares, err = e.split(mode, fx.secret, n, t, c08seed(n, t, si, 2)); err != nil {
 			return nil, fmt.Sprintf("second split refused: %v", err)
 		}
-		if fx.otherPar, err = e.partials(fx.otherShares); err != nil {
+		if fx.otherPar, err = e.partials(fx.otherShares, need); err != nil {
 			return nil, err.Error()
 		}
-		if fx.samePar, err = e.partials(fx.sameShares); err != nil {
+		if fx.samePar, err = e.partials(fx.sameShares, need); err != nil {
 			return nil, err.Error()
 		}
 	}
@@ -262,7 +275,11 @@ func (e *c08env) eval(fx *c08fx, c c08Case) (sig, desc, skip string) {
 			if !ok {
 				return "", "", fmt.Sprintf("share %d not in this split", id)
 			}
-			sub[id], pub[id] = sh, fx.pubs[id]
+			pk, ok := fx.pubs[id]
+			if !ok {
+				return "", "", fmt.Sprintf("public share %d not built in this fixture", id)
+			}
+			sub[id], pub[id] = sh, pk
 		}
 		e.steps += 2
 		got, err := tbls.RecoverSecret(sub, uint(c.N), uint(c.T))
@@ -349,7 +366,11 @@ func (e *c08env) eval(fx *c08fx, c c08Case) (sig, desc, skip string) {
 		if fs == fx.shares[c.Pos] {
 			return "", "", "foreign share equals the genuine share"
 		}
-		sub[c.Pos] = par[c.Msg][c.Pos]
+		fp, ok := par[c.Msg][c.Pos]
+		if !ok {
+			return "", "", fmt.Sprintf("foreign partial of share %d not built in this fixture", c.Pos)
+		}
+		sub[c.Pos] = fp
 	case kSibling:
 		sib, ok := fx.shares[c.Arg]
 		if !ok || c.Arg == c.Pos {
@@ -358,7 +379,11 @@ func (e *c08env) eval(fx *c08fx, c c08Case) (sig, desc, skip string) {
 		if sib == fx.shares[c.Pos] {
 			return "", "", "sibling share equals the genuine share"
 		}
-		sub[c.Pos] = fx.par[c.Msg][c.Arg]
+		sp, ok := fx.par[c.Msg][c.Arg]
+		if !ok {
+			return "", "", fmt.Sprintf("partial of share %d not built in this fixture", c.Arg)
+		}
+		sub[c.Pos] = sp
 	case kWrongIdx:
 		if in[c.Arg] {
 			return "", "", "target index is in the subset"
@@ -372,7 +397,11 @@ func (e *c08env) eval(fx *c08fx, c c08Case) (sig, desc, skip string) {
 		if c.Arg == c.Msg || c.Arg < 0 || c.Arg >= len(e.msgs) || bytes.Equal(e.msgs[c.Arg], e.msgs[c.Msg]) {
 			return "", "", "not another message"
 		}
-		sub[c.Pos] = fx.par[c.Arg][c.Pos]
+		op, ok := fx.par[c.Arg][c.Pos]
+		if !ok {
+			return "", "", fmt.Sprintf("partial of share %d not built in this fixture", c.Pos)
+		}
+		sub[c.Pos] = op
 		alsoMsg = c.Arg
 	case kFewer:
 	default:
@@ -444,7 +473,7 @@ func (x *c08runner) run(fx *c08fx, c c08Case) {
 		return
 	}
 	for k := 0; k < c08Confirm; k++ {
-		fx2, why := e.build(c.N, c.T, c.Secret, c.Mode, true)
+		fx2, why := e.build(c.N, c.T, c.Secret, c.Mode, true, c08need(c))
 		if fx2 == nil {
 			e.r.Unconfirmed(sig + " (" + why + ")")
 			return
@@ -457,6 +486,19 @@ func (x *c08runner) run(fx *c08fx, c c08Case) {
 	}
 	x.reported[sig] = true
 	e.r.Violation(sig, desc+" ["+c.String()+"]", c)
+}
+
+// c08need: the share ids a case touches. Small splits are built completely (as always); for the large-index
+// dimension (n up to 65537) only the public shares and partials of these ids are computed.
+func c08need(c c08Case) map[int]bool {
+	if c.N <= 66 {
+		return nil
+	}
+	need := map[int]bool{c.Pos: true, c.Arg: true}
+	for _, id := range c.Subset {
+		need[id] = true
+	}
+	return need
 }
 
 func c08uniq(in []int) (out []int) {
@@ -567,7 +609,7 @@ func (x *c08runner) unit(n, t, si int) {
 		if e.r.Expired() {
 			return
 		}
-		fx, why := e.build(n, t, si, mode, true)
+		fx, why := e.build(n, t, si, mode, true, nil)
 		if fx == nil {
 			e.count("fixture_refused")
 			e.r.Note("not evaluated: " + why)
@@ -692,9 +734,21 @@ func TestVerifC08(t *testing.T) {
 	e.secrets = secrets
 	x := &c08runner{e: e, reported: map[string]bool{}, samples: map[string]any{}}
 
+	rel := &c08rel{x: x}
 	if r.ReplayPath != "" {
+		var raw json.RawMessage
+		if err := r.ReplayCase(&raw); err != nil {
+			t.Fatalf("replay file: %v", err)
+		}
+		var probe struct {
+			Dim string `json:"dim"`
+		}
+		if json.Unmarshal(raw, &probe) == nil && probe.Dim == "callhist" {
+			rel.replay(raw)
+			return
+		}
 		var c c08Case
-		if err := r.ReplayCase(&c); err != nil {
+		if err := json.Unmarshal(raw, &c); err != nil {
 			t.Fatalf("replay file: %v", err)
 		}
 		if c.Secret < 0 || c.Secret >= len(secrets) || c.Msg >= len(e.msgs) || (c.Msg < 0 && c.Kind != kSplit && c.Kind != kRecover) {
@@ -703,7 +757,7 @@ func TestVerifC08(t *testing.T) {
 		verdicts := []string{}
 		var lastDesc string
 		for k := 0; k < c08Confirm; k++ {
-			fx, why := e.build(c.N, c.T, c.Secret, c.Mode, true)
+			fx, why := e.build(c.N, c.T, c.Secret, c.Mode, true, c08need(c))
 			if fx == nil {
 				fmt.Printf("replay: fixture not built: %s\n", why)
 				return
@@ -734,25 +788,59 @@ func TestVerifC08(t *testing.T) {
 		maxN = 10
 	}
 	defer func() { // a few written-out cases, different kinds in different shards
-		kinds := []string{kAgg, kWrongIdx, kOtherMsg, kForeign, kRecover, kSibling, kFewer, kForeign2}
+		kinds := []string{kAgg, kWrongIdx, kOtherMsg, "callhist", kForeign, kRecover, kSibling, kFewer, kForeign2}
 		for i := range kinds {
 			if s, ok := x.samples[kinds[(i+r.Shard)%len(kinds)]]; ok {
 				r.Sample(s)
 			}
 		}
 	}()
+	// Work distribution. The capacity-history dimension is ONE process-long sequence (K x 4 verifications, the longest
+	// single piece of work of the check): shard 0 runs it and nothing else, the units of all other dimensions go round
+	// robin over the remaining shards (a single-shard run does everything).
+	unit := 0
+	mine := func() bool {
+		if r.NSh <= 1 {
+			return true
+		}
+		u := unit
+		unit++
+		return r.Shard > 0 && u%(r.NSh-1) == r.Shard-1
+	}
 	// history dimension (one shard, one process-long sequence): see zz_verif_c08_hist_test.go
-	if r.Mine() {
+	if r.NSh <= 1 || r.Shard == 0 {
 		K := 10000
 		if thorough {
 			K = 70000
 		}
 		c08history(r, K)
 	}
+	// call histories over related queries: see zz_verif_c08_rel_test.go
+	for _, u := range c08relUnits(thorough) {
+		if !mine() {
+			continue
+		}
+		if r.Expired() {
+			return
+		}
+		rel.relUnit(u)
+	}
+	// large share indices: see zz_verif_c08_big_test.go
+	for _, n := range c08bigN(thorough) {
+		for _, th := range c08bigT(thorough) {
+			if th > n || !mine() {
+				continue
+			}
+			if r.Expired() {
+				return
+			}
+			x.bigUnit(n, th, 3+n%2) // the two fixed 32-byte patterns, alternating
+		}
+	}
 	for n := 2; n <= maxN; n++ {
 		for th := 2; th <= n; th++ {
 			for si := range secrets {
-				if !r.Mine() {
+				if !mine() {
 					continue
 				}
 				if r.Expired() {
@@ -781,7 +869,7 @@ func TestVerifC08(t *testing.T) {
 				if n > 66 && si > 0 {
 					continue
 				}
-				if !r.Mine() {
+				if !mine() {
 					continue
 				}
 				if r.Expired() {
@@ -795,7 +883,7 @@ func TestVerifC08(t *testing.T) {
 		// the largest cluster size of the statement also in the quick tier (share index 10 is the first two-digit index)
 		for _, th := range []int{2, 7, 10} {
 			for si := 0; si < 2 && si < len(secrets); si++ {
-				if !r.Mine() {
+				if !mine() {
 					continue
 				}
 				if r.Expired() {
